@@ -57,17 +57,31 @@ def cond(e, env):
     raise Unsupported(render(e))
 
 
+class _Return(Exception):
+    pass
+
+
 def run(st, env):
+    """evaluate a fragment; a `return;` inside it ends the evaluation (the fragment is a whole helper body then)"""
+    try:
+        _run(st, env)
+    except _Return:
+        pass
+
+
+def _run(st, env):
     k = st.get('kind')
+    if k == 'ReturnStmt' and not [c for c in st.get('inner', []) if isinstance(c, dict) and c.get('kind')]:
+        raise _Return()
     if k == 'CompoundStmt':
         for c in st.get('inner', []):
-            run(c, env)
+            _run(c, env)
         return
     if k == 'IfStmt':
         if cond(st['inner'][0], env):
-            run(st['inner'][1], env)
+            _run(st['inner'][1], env)
         elif len(st['inner']) > 2 and st['inner'][2].get('kind'):
-            run(st['inner'][2], env)
+            _run(st['inner'][2], env)
         return
     if k == 'NullStmt':
         return
